@@ -49,7 +49,7 @@ Clauses == {
   "C16_StreamInOrderExactlyOnce",
   "C17_DoneNeverReverts",
   "C18_NothingAfterShutdownReturns", "C18_AllDoneAtShutdownReturn",
-  "C18_NeighbourUnaffected", "C18_FinalStateConsistent" }
+  "C18_NeighbourUnaffected", "C18_FinalStateConsistent", "C18_ExecutorsShutInOrder" }
 
 Holds(c, o) ==
   CASE c = "C01_ObjectEqualsSource" ->
@@ -201,6 +201,8 @@ Holds(c, o) ==
     [] c = "C18_NeighbourUnaffected" ->
          AllX(o, LAMBDA xr : (Finished(xr) /\ xr.faultFree /\ ~Cancelled(xr) /\ ~xr.override) => Ok(xr))
     [] c = "C18_FinalStateConsistent" -> o.finalBad = <<>>
+    \* (binds the constant Order of Manager.tla to the code)
+    [] c = "C18_ExecutorsShutInOrder" -> ~o.shutBad
     [] OTHER -> TRUE
 
 Violated(o) == {c \in Clauses : ~Holds(c, o)}
